@@ -7,8 +7,8 @@ V="$(cd "$(dirname "$0")/.." && pwd)"
 cd "$V"
 NAMES="${*:-$(ls seeded | grep -v MATRIX)}"
 # freeze the harness sources for the duration of the sweep
-rm -rf /tmp/verif-mw/src-snap; mkdir -p /tmp/verif-mw; cp -r "$V/dst/src" /tmp/verif-mw/src-snap
-export VERIF_SRC=/tmp/verif-mw/src-snap
+MWD="${VERIF_MW:-/tmp/verif-mw}"; rm -rf "$MWD/src-snap"; mkdir -p "$MWD"; cp -r "$V/dst/src" "$MWD/src-snap"
+export VERIF_SRC="$MWD/src-snap"
 for n in $NAMES; do
   d="seeded/$n"; [ -f "$d/patch.diff" ] || continue
   ids=$(python3 -c "import json;m=json.load(open('$d/meta.json'));print(' '.join([m['property']]+m.get('also_run',[])))")
